@@ -1,0 +1,9 @@
+//go:build verif
+
+package utility
+
+// verif hook H1: GetTime() would otherwise block forever querying NTP servers
+// in a sandbox without network. With the verif tag the NTP offset is zero.
+func init() {
+	ntpInitFlag = true
+}
